@@ -5,6 +5,7 @@ import (
 	"errors"
 	"fmt"
 	"math/big"
+	"sync"
 
 	"github.com/vipnode/vipnode/v2/pool"
 	"github.com/vipnode/vipnode/v2/pool/store"
@@ -49,6 +50,9 @@ type PaymentService struct {
 	WithdrawFee func(*big.Int) *big.Int
 	// WithdrawMin (optional) is the minimum amount required to allow a withdraw.
 	WithdrawMin *big.Int
+
+	// withdrawMu makes sure a balance is read, settled and cleared by one withdraw at a time.
+	withdrawMu sync.Mutex
 }
 
 func (p *PaymentService) verify(sig string, method string, wallet string, nonce int64, args ...interface{}) error {
@@ -107,6 +111,9 @@ func (p *PaymentService) Withdraw(ctx context.Context, sig string, wallet string
 		return ErrWithdrawDisabled
 	}
 
+	p.withdrawMu.Lock()
+	defer p.withdrawMu.Unlock()
+
 	account := store.Account(wallet)
 	balance, err := p.BalanceStore.GetAccountBalance(account)
 	if err != nil {
@@ -133,5 +140,7 @@ func (p *PaymentService) Withdraw(ctx context.Context, sig string, wallet string
 		return err
 	}
 	logger.Printf("Withdraw from account %q for %d: %s", account, total, txID)
-	return nil
+
+	// The credit that was just paid out is no longer owed.
+	return p.BalanceStore.AddAccountBalance(account, new(big.Int).Neg(&balance.Credit))
 }
